@@ -249,6 +249,12 @@ impl<T: Send> UnboundedAsyncReceiver<T> {
 
 impl<T: Send> Clone for UnboundedSyncReceiver<T> {
   fn clone(&self) -> Self {
+    // a clone of a closed handle is closed too: it must not revive a disconnected channel
+    if self.closed.load(Ordering::Relaxed) {
+      let clone = UnboundedSyncReceiver::from_shared(Arc::clone(&self.shared));
+      clone.closed.store(true, Ordering::Relaxed);
+      return clone;
+    }
     self.shared.add_receiver();
     UnboundedSyncReceiver::from_shared(Arc::clone(&self.shared))
   }
@@ -256,6 +262,12 @@ impl<T: Send> Clone for UnboundedSyncReceiver<T> {
 
 impl<T: Send> Clone for UnboundedAsyncReceiver<T> {
   fn clone(&self) -> Self {
+    // a clone of a closed handle is closed too: it must not revive a disconnected channel
+    if self.closed.load(Ordering::Relaxed) {
+      let clone = UnboundedAsyncReceiver::from_shared(Arc::clone(&self.shared));
+      clone.closed.store(true, Ordering::Relaxed);
+      return clone;
+    }
     self.shared.add_receiver();
     UnboundedAsyncReceiver::from_shared(Arc::clone(&self.shared))
   }
